@@ -110,20 +110,35 @@ def run(ctx, rep):
             rep.violate(Violation('C05.R2', at.where(), 'ECANCELED can be returned on a path where the note is not known to be notified (%s)' %
                                   ('the sleep ended at the caller\'s own deadline' if timed_out and not not_nearer else 'no guard establishes that the note is notified or has just expired'),
                                   site='nsync_sem_wait_with_cancel_/ecanceled-provenance'))
-    # the flag is set exactly where abs_deadline is chosen
-    flags = [i for i in fn.real_insts() if i.op == 'phi' and i.ty == 'i32' and sorted(IR.ival(v) for v, _ in i.ops if IR.is_int(v)) == [0, 1] and len(i.ops) == 2]
-    okf = False
-    for ph in flags:
-        one_from = [pb for v, pb in ph.ops if IR.is_int(v) and IR.ival(v) == 1][0]
-        # in the same join, the deadline phis take abs_deadline (args a1,a2) from that predecessor
-        dl = [a['id'] for a in fn.args if a['ty'] == 'i64']
-        sib = [j for j in ph.block.insts if j.op == 'phi' and j.ty == 'i64']
-        if sib and all(any(pb == one_from and v in dl for v, pb in j.ops) for j in sib):
-            okf = True
-    rep.instance('C05.R2', 'deadline_is_nearer set exactly where abs_deadline is selected: %s' % okf); rep.oblig('C05.R2', okf)
-    if not okf:
-        rep.violate(Violation('C05.R2', '%s:%d in %s' % (IR.rel(fn.file), fn.line, fn.name), 'the "deadline is nearer" flag and the deadline actually handed to the sleep are not selected by the same predicate: a timeout at the caller\'s deadline can be reported as a cancellation or vice versa',
-                              site='nsync_sem_wait_with_cancel_/deadline-flag'))
+    # the outcome matches the deadline that was used - judged on the interpretation of the cancellable wait in which the caller's abs_deadline is
+    # an opaque token pair and the timed sleep's result a symbolic value in {0, ETIMEDOUT}: a sleep that was given the caller's own deadline
+    # never ends in the constant ECANCELED, and a sleep that was given another deadline (the note's expiry) never ends in ETIMEDOUT
+    from .. import objmodel as _om
+    from ..symex import eval_tree as _ev, is_expr as _isx
+    oeng2, oruns2 = _om.analyse(ctx)
+    nfl = 0
+    for label, fname, exits in oruns2:
+        if label != 'nsync_sem_wait_with_cancel_':
+            continue
+        for x in exits:
+            how = x.ghost.get(('slept_with',))
+            if how is None:
+                continue
+            rv = x.trace[0] if x.trace else None
+            vals = set(_ev(rv[2], d) for d in x.S.get(rv[1], ())) if _isx(rv) else ({rv} if isinstance(rv, int) else None)
+            nfl += 1
+            bad = None
+            if how == 'deadline' and vals is not None and EC in vals:
+                bad = 'a sleep that was given the caller\'s own deadline can end in ECANCELED: a timeout at the caller\'s deadline is reported as a cancellation'
+            elif how == 'other' and vals is not None and ET in vals:
+                bad = 'a sleep that was given a deadline other than the caller\'s (the note\'s expiry) can end in ETIMEDOUT: the note\'s expiry is reported as the caller\'s timeout'
+            elif vals is None:
+                bad = 'the result of the cancellable wait is not a function of the sleep\'s outcome'
+            rep.instance('C05.R2', 'exit after sleeping with %s deadline: possible results %s' % ('the caller\'s' if how == 'deadline' else 'another', sorted(vals) if vals else vals)); rep.oblig('C05.R2', bad is None)
+            if bad:
+                rep.violate(Violation('C05.R2', '%s:%d in %s' % (IR.rel(fn.file), fn.line, fn.name), bad, site='nsync_sem_wait_with_cancel_/deadline-flag'))
+    if nfl == 0:
+        raise AnalysisBroken('C05.R2: no exit of the cancellable wait after a sleep was interpreted')
     # ---- R4
     for wname in ('nsync_cv_wait_with_deadline_generic', 'nsync_mu_wait_with_deadline'):
         wf = mod.func(wname)
